@@ -202,10 +202,182 @@ pub fn check_file(ctx: &mut Ctx, file: &[u8], rng: &mut Rng, flips_per_chunk: us
     let _ = crc32;
 }
 
+/// `Decoder::ignore_checksums(true)` / `(false)` as option sets
+const IGNORE_ON: [bool; 5] = [true, true, false, false, true];
+const IGNORE_OFF: [bool; 5] = [false, false, false, false, true];
+
+/// feed `file[..cut]`, call `set_ignore_adler32(flag)`, feed the rest; returns (what the setter answered, what the getter
+/// says afterwards, error class or "ok")
+fn late_adler_setter(file: &[u8], cut: usize, flag: bool) -> Result<(bool, bool, String), String> {
+    let file = file.to_vec();
+    crate::util::guarded(move || {
+        let mut dec = png::StreamingDecoder::new();
+        let mut img = vec![];
+        let mut err = "ok".to_string();
+        let mut answered = true;
+        for (part, piece) in [&file[..cut.min(file.len())], &file[cut.min(file.len())..]].iter().enumerate() {
+            if part == 1 {
+                answered = dec.set_ignore_adler32(flag);
+            }
+            let mut buf = *piece;
+            let mut calls = 0usize;
+            while !buf.is_empty() && err == "ok" {
+                calls += 1;
+                if calls > crate::util::spin_budget(file.len()) {
+                    err = "SPIN".into();
+                    break;
+                }
+                match dec.update(buf, &mut img) {
+                    Ok((_, png::Decoded::ImageEnd)) => break,
+                    Ok((n, _)) => buf = &buf[n..],
+                    Err(e) => err = err_class(&e),
+                }
+            }
+        }
+        (answered, dec.ignore_adler32(), err)
+    })
+}
+
+/// The checksum policy driven through the PUBLIC switches: `Decoder::ignore_checksums(true / false)` on a `Decoder::new(..)`
+/// and the setters of `StreamingDecoder`.  A file whose only faults are wrong CRC fields and / or a wrong Adler-32 decodes,
+/// with the checks switched off, to exactly the result of the intact file (header, metadata, every frame, finish); with them
+/// switched on a wrong Adler-32 or a wrong CRC of a critical chunk is refused no later than the chunk's frame.  The setter
+/// route and the `DecodeOptions` route give the same canonical result; `set_ignore_adler32` answers `true` before and `false`
+/// (without effect) after decompression has started.  Reader traces of the altered files are compared with the Lean Reader model.
+fn public_switches_part(ctx: &mut Ctx, rng: &mut Rng) {
+    use crate::props::c04::{run_reader_route, run_streaming, run_streaming_route};
+    use crate::rops::{self, Config, Op};
+    let ident = png::Transformations::IDENTITY;
+    let mut runs = vec![];
+    let mut traces = vec![];
+    for i in 0..ctx.n(70, 260) {
+        let mut r = rng.fork(7000 + i as u64);
+        let f = if i % 3 == 2 { corpus::built_anim(&mut r, 8) } else { corpus::built_still(&mut r, 12, true) };
+        let file = &f.bytes;
+        let chunks = chunk_positions(file);
+        let intact = run_reader(file, &[], &DEFAULT_OPTS, ident);
+        if intact.starts_with("PANIC") || first_error_stage(&intact).is_some() {
+            ctx.rep.notes.push(format!("public switches: generator file {} does not decode: {}", i, crate::util::shorten(&intact, 120, 0)));
+            continue;
+        }
+        let nframes = frames_in(&intact);
+        // the intact file: both positions of the switch give the intact result
+        for (opts, name) in [(IGNORE_ON, "on"), (IGNORE_OFF, "off")] {
+            ctx.rep.eval(true, fnv64(file) ^ fnv64(name.as_bytes()));
+            ctx.rep.count("public switches", &format!("intact file, ignore_checksums {}", name));
+            let r0 = run_reader_route(file, &[], &opts, ident, true);
+            if r0 != intact {
+                ctx.rep.violation("oracle", &format!("public-switches/intact-file-differs/{}", name), &format!("an intact file decoded through Decoder::ignore_checksums({}) differs from its decode with default options: `{}` vs `{}`", name == "on", crate::util::shorten(&r0, 300, 100), crate::util::shorten(&intact, 300, 100)), pcase(file, file, "none", 0, &opts));
+            }
+        }
+        let crit: Vec<&ChunkPos> = chunks.iter().filter(|c| c.ty[0] & 32 == 0).collect();
+        let adler = adler_offset(file, &chunks);
+        for kind in 0..4usize {
+            // 0: CRC fields of a random non-empty set of chunks; 1: the Adler-32 field (CRCs recomputed); 2: both;
+            // 3: the CRC field of one critical chunk
+            let mut alt = file.clone();
+            let mut hit: Option<&ChunkPos> = None;
+            if kind == 1 || kind == 2 {
+                match adler {
+                    Some(a) => alt[a + r.usize(0, 3)] ^= 1 << r.below(8),
+                    None => continue,
+                }
+                alt = match corpus::repair_crcs(&alt) { Some(x) => x, None => continue };
+            }
+            if kind == 0 || kind == 2 {
+                let mut any = false;
+                for (k, c) in chunks.iter().enumerate() {
+                    if r.chance(1, 3) || (!any && k + 1 == chunks.len()) {
+                        any = true;
+                        let at = c.start + 8 + c.len;
+                        alt[at + r.usize(0, 3)] ^= (r.below(255) + 1) as u8;
+                    }
+                }
+            }
+            if kind == 3 {
+                let c = *r.pick(&crit);
+                alt[c.start + 8 + c.len + r.usize(0, 3)] ^= 1 << r.below(8);
+                hit = Some(c);
+            }
+            let what = ["crc-fields", "adler-field", "crc-fields+adler-field", "one-critical-crc"][kind];
+            ctx.rep.eval(true, fnv64(&alt) ^ 0x9b);
+            ctx.rep.count("public switches", &format!("{}, ignore_checksums on/off", what));
+            // switched off: inert
+            let on = run_reader_route(&alt, &[], &IGNORE_ON, ident, true);
+            if on != intact {
+                ctx.rep.violation("oracle", &format!("public-switches/ignored-checksums-not-inert/{}", what), &format!("Decoder::ignore_checksums(true): a file whose only faults are checksum fields ({}) does not decode to the result of the intact file: `{}` vs `{}`", what, crate::util::shorten(&on, 300, 100), crate::util::shorten(&intact, 300, 100)), pcase(file, &alt, what, 0, &IGNORE_ON));
+            }
+            // switched on: refused in time
+            let off = run_reader_route(&alt, &[], &IGNORE_OFF, ident, true);
+            if off.starts_with("PANIC") {
+                ctx.rep.violation("oracle", "public-switches/panic", &format!("panic: {}", off), pcase(file, &alt, what, 0, &IGNORE_OFF));
+            } else if kind == 1 {
+                if first_error_stage(&off) != Some(0) {
+                    ctx.rep.violation("oracle", "public-switches/adler-not-checked", &format!("Decoder::ignore_checksums(false): a wrong Adler-32 of the image data is not refused at the first frame: `{}`", crate::util::shorten(&off, 300, 100)), pcase(file, &alt, what, adler.unwrap_or(0), &IGNORE_OFF));
+                }
+            } else if let Some(c) = hit {
+                let stage = first_error_stage(&off);
+                let in_time = matches!(stage, Some(k) if k <= c.frame || (c.frame >= nframes && k == usize::MAX - 1));
+                if !in_time || ok_frame_at_or_after(&off, c.frame) {
+                    ctx.rep.violation("oracle", &format!("public-switches/critical-bad-crc-not-fatal/{}", ty_str(&c.ty)), &format!("Decoder::ignore_checksums(false): a wrong CRC of the critical chunk {} (frame {}) is not refused in time: `{}`", ty_str(&c.ty), c.frame, crate::util::shorten(&off, 300, 100)), pcase(file, &alt, what, c.start, &IGNORE_OFF));
+                }
+            }
+            // the low-level decoder: setter route = DecodeOptions route, and with the CRC switch off the events of the intact file
+            for opts in [DEFAULT_OPTS, IGNORE_ON, IGNORE_OFF, [false, true, true, true, false], [true, false, false, false, false]] {
+                let a = run_streaming_route(&alt, &[], &opts, true);
+                let b = run_streaming(&alt, &[], &opts);
+                if a != b {
+                    ctx.rep.violation("oracle", "public-switches/streaming-setters-differ", &format!("StreamingDecoder::new() + setters ({}) gives `{}`, new_with_options gives `{}`", opts_string(&opts), crate::util::shorten(&a, 200, 100), crate::util::shorten(&b, 200, 100)), pcase(file, &alt, what, 0, &opts));
+                }
+                if opts[0] && opts[1] {
+                    let c = run_streaming(file, &[], &opts);
+                    if a != c {
+                        ctx.rep.violation("oracle", &format!("public-switches/streaming-ignored-checksums-not-inert/{}", what), &format!("StreamingDecoder with both checks switched off through its setters: altered file `{}`, intact file `{}`", crate::util::shorten(&a, 200, 100), crate::util::shorten(&c, 200, 100)), pcase(file, &alt, what, 0, &opts));
+                    }
+                }
+            }
+            // set_ignore_adler32 after decompression has started: answers false and changes nothing
+            if kind == 1 {
+                if let Some(idat) = chunks.iter().find(|c| &c.ty == b"IDAT" && c.len >= 3) {
+                    let cut = idat.start + 8 + r.usize(1, idat.len - 1).min(40);
+                    match late_adler_setter(&alt, cut, false) {
+                        Err(p) => ctx.rep.violation("oracle", "public-switches/panic", &format!("panic: {}", p), pcase(file, &alt, what, cut, &DEFAULT_OPTS)),
+                        Ok((answered, getter, err)) => {
+                            if answered || !getter || err != "ok" {
+                                ctx.rep.violation("oracle", "public-switches/late-adler-setter", &format!("set_ignore_adler32(false) after {} bytes of image data: answered {}, ignore_adler32() then {}, stream with a wrong Adler-32 ended `{}` (expected false, true, ok)", cut - idat.start - 8, answered, getter, err), pcase(file, &alt, what, cut, &DEFAULT_OPTS));
+                            }
+                        }
+                    }
+                }
+            }
+            // Reader model on the altered file under both positions of the switch (options installed through the setters)
+            if alt.len() < 2500 && (i + kind) % 2 == 0 {
+                let ops: Vec<Op> = std::iter::once(Op::ReadInfo).chain((0..nframes + 1).map(|_| Op::NextFrame(0))).chain(std::iter::once(Op::Finish)).collect();
+                for opts in [IGNORE_ON, IGNORE_OFF] {
+                    let cfg = Config { opts, via_setters: true, ..Config::default() };
+                    traces.push(rops::run_ops(&alt, alt.len(), &ops, &cfg));
+                    runs.push((alt.clone(), alt.len(), ops.clone(), cfg, true));
+                }
+            }
+        }
+    }
+    crate::props::reader_props::model_batch(ctx, &runs, &traces, "c11-public-switches");
+}
+
+fn pcase(intact: &[u8], alt: &[u8], what: &str, at: usize, opts: &[bool; 5]) -> J {
+    case(alt, what, at, opts).set("intact", J::s(&hex(intact)))
+}
+
+fn ok_frame_at_or_after(r: &str, frame: usize) -> bool {
+    r.split(' ').any(|tok| tok.strip_prefix('f').and_then(|rest| rest.split_once(':')).map(|(k, tail)| tail.starts_with("ok(") && k.parse::<usize>().map(|k| k >= frame).unwrap_or(false)).unwrap_or(false))
+}
+
 pub fn run(ctx: &mut Ctx) {
     ctx.rep.rule = "valid reference-built files (stills with ancillary chunks, APNGs) x every chunk x {single-bit flip in type / data / CRC, CRC byte replacement} x option sets \
         {default, ignore_crc, ignore_adler32=false, skip_ancillary_crc_failures=false} + Adler-32 field alteration (CRCs repaired); each altered file decoded through Reader (read_info, all frames, finish) \
-        and compared with the unaltered decode and with the decode of the file without the chunk; every case alters a checksum-covered bit, so all are non-trivial; distinct = hash(altered file, options)".into();
+        and compared with the unaltered decode and with the decode of the file without the chunk; every case alters a checksum-covered bit, so all are non-trivial; distinct = hash(altered file, options); \
+        plus the PUBLIC switches: Decoder::ignore_checksums(true/false) on Decoder::new and the setters of StreamingDecoder on files whose only faults are CRC fields and/or the Adler-32 field (inert when off, refused in time when on, \
+        setter route = DecodeOptions route, set_ignore_adler32 refused after decompression has started), Reader traces vs the Lean Reader model".into();
     let mut rng = ctx.rng.fork(1);
     let n = ctx.n(110, 400);
     let flips = ctx.n(4, 12);
@@ -218,6 +390,8 @@ pub fn run(ctx: &mut Ctx) {
             ctx.rep.sample(J::obj().set("file_bytes", J::i(f.bytes.len() as u64)).set("chunks", J::s(&chunk_positions(&f.bytes).iter().map(|c| ty_str(&c.ty)).collect::<Vec<_>>().join(","))));
         }
     }
+    let mut r = rng.fork(0x9b11c);
+    public_switches_part(ctx, &mut r);
 }
 
 pub fn replay(ctx: &mut Ctx, case: &J) {
@@ -229,6 +403,21 @@ pub fn replay(ctx: &mut Ctx, case: &J) {
         opts[i] = ch == '1';
     }
     ctx.rep.eval(true, fnv64(&file));
+    if let Some(intact) = case.get("intact").and_then(|f| f.as_str()).and_then(unhex) {
+        // a case of the public-switches part: the altered file under both positions of the switch next to the intact file
+        let ident = png::Transformations::IDENTITY;
+        let base = run_reader(&intact, &[], &DEFAULT_OPTS, ident);
+        let on = crate::props::c04::run_reader_route(&file, &[], &IGNORE_ON, ident, true);
+        let off = crate::props::c04::run_reader_route(&file, &[], &IGNORE_OFF, ident, true);
+        println!("intact:  {}\nignore_checksums(true):  {}\nignore_checksums(false): {}", base, on, off);
+        if on != base {
+            ctx.rep.violation("oracle", "public-switches/ignored-checksums-not-inert/replay", "with the checks switched off the altered file does not decode to the result of the intact file", case.clone());
+        }
+        if off == base && file != intact {
+            ctx.rep.violation("oracle", "public-switches/not-refused/replay", "with the checks switched on the altered file decodes like the intact file", case.clone());
+        }
+        return;
+    }
     let r = run_reader(&file, &[], &opts, png::Transformations::IDENTITY);
     let repaired = corpus::repair_crcs(&file).map(|f| run_reader(&f, &[], &opts, png::Transformations::IDENTITY)).unwrap_or_default();
     // an altered file whose bad-CRC chunk is used behaves like the CRC-repaired file
